@@ -6,7 +6,11 @@ CHECK = {'level': 'exploration',
          'locked map, on in-memory pebble and through batchdb+Write (the ABIHandler.Commit pattern), with optional NewTrie(root,L) reopen between '
          'batches; after every batch root == naive LIP-0039 recursion over the map; final map rebuilt in one batch on a fresh store; two-route '
          'histories (direct vs. insert-extras-then-delete) compared with each other; Prove/Verify on drawn query sets (present, absent near/far, '
-         'duplicates) + Encode/Decode round trip + 1-4 single-field tamperings each; event-root call pattern (12-byte keys, raw values, one '
+         'duplicates): the proof returned by Prove must EQUAL the proof the reference model prescribes for the same query keys - key, value and bitmap of '
+         'every query and the sibling-hash list in number, order and content (model answers with per-level sibling hashes, assembled by the LIP-0039 '
+         'verification queue: height descending, then key; sibling queries merge; queries ending in the same node count once) - a difference is a '
+         'violation even when Verify(Prove(keys)) is true (Prove and Verify share helpers; a common drift would otherwise empty the soundness tests), '
+         '+ Encode/Decode round trip + 1-4 single-field tamperings each; event-root call pattern (12-byte keys, raw values, one '
          'Update); seed-expanded maps of 300-2000 keys; directed DENSE cases (TestDense, every kind in every tier): key families whose byte at one '
          'level takes all 256 values under a common prefix so that an 8-bit subtree is completely expanded (256 nodes = count byte 255 in '
          'the store: 256 leaves / 256 stubs / leaves+stubs+empty nodes), at the top level, at levels 1/2/3/6/L-2 and at the last key byte (all '
@@ -37,7 +41,8 @@ CHECK = {'level': 'exploration',
          'thorough: all 630), every present key and absent probe as anchor; TestForgedMulti: drawn tries (3-8 keys spread over the top '
          'nibble incl. derived neighbours, or clustered pools of 8-24 keys; key lengths 1/2/4/32/38), up to 5 drawn anchors (2 for 32/38-byte '
          'keys). Oracle: Verify(real root, real key length) true => every claim of every query holds in the reference map; the honest part '
-         'of every fourth set is verified alone as a control. Non-trivial forged case = the set contains a false claim AND passes the input '
+         'of every fourth set is verified alone as a control: Verify must accept the model-assembled honest proof AND Prove must return exactly that proof '
+         '(queries and sibling hashes) for the same keys, once per distinct honest key list of a trie; both fatal (labels *-control:...). Non-trivial forged case = the set contains a false claim AND passes the input '
          'checks of Verify (mirrored in the harness for classification only), i.e. it reaches CalculateRoot; labels forged-*:stage=... give '
          'the fraction that died in input validation vs. reached CalculateRoot (which error / root mismatch) and forged-*:forged-branch=... what '
          'happened to the forged branch (dropped onto an honest path / honest branch dropped onto it / queued next to it / sibling merge / '
@@ -45,6 +50,7 @@ CHECK = {'level': 'exploration',
          'the proofs returned by Prove; every tier): nothing is length-prefixed when hashed (leaf = H(00|key|value), branch = H(01|left|right)), so '
          'starting from an honest single-query or multi-query proof (model answers + assembled sibling hashes; 1-5 queries; target first / last / in '
          'the middle; other honest queries pending deeper and at-or-above the target height; the target also twice = honest copy + forged copy) the '
+         '(every honest set under the same fatal control as above: verified by Verify and equal to the output of Prove) '
          'LENGTHS and FIELD BOUNDARIES of one query or of every query are changed while the query keys keep the correct length: 1/2/3/8/16/31/32 '
          '(and drawn) leading value bytes moved to the end of the key (key longer, value shorter down to empty), 1/2/8/L-1/L (and drawn) trailing '
          'key bytes moved to the front of the value (key shorter down to empty, value longer) - both keep key|value and therefore leaf hash, path and '
@@ -72,7 +78,8 @@ CHECK = {'level': 'exploration',
  'level_note': 'Sampled, not exhaustive. Model = my reading of LIP-0039 (cross-checked by model-free two-route/rebuild comparisons and by the '
                'repository\'s own fixtures passing). Values are 32 bytes (what the state-tree caller passes) except in the event pattern.',
  'technique': 'property-based differential and metamorphic testing (rapid) against a naive LIP-0039 reference model',
- 'assumptions': ['reference root/answers = my transcription of LIP-0039 in harness/model/smt',
+ 'assumptions': ['reference root/answers = my transcription of LIP-0039 in harness/model/smt; reference sibling-hash order = the LIP-0039 verification queue as '
+                 'transcribed in assembleSiblings (forged_test.go); distinct nodes are assumed to have distinct hashes (SHA-256)',
                  'keys unique within one Update batch (every caller deduplicates); identical duplicates only as a labelled sub-domain',
                  'values are 32-byte strings, deletion is the empty value (package tests and state-tree caller); raw-length values only in the '
                  'single-Update event-root pattern',
